@@ -23,6 +23,7 @@ import (
 
 const shimPath = "berty.tech/go-ipfs-log/zvsync"
 const lruShimPath = "berty.tech/go-ipfs-log/zvlru"
+const atomicShimPath = "berty.tech/go-ipfs-log/zvatomic"
 
 func main() {
 	if len(os.Args) != 3 {
@@ -41,7 +42,7 @@ func main() {
 		}
 		rel, _ := filepath.Rel(repo, p)
 		if info.IsDir() {
-			if rel == "test" || rel == "example" || rel == ".git" || strings.HasPrefix(filepath.Base(p), ".") && rel != "." || rel == "zvsync" || rel == "zvlru" {
+			if rel == "test" || rel == "example" || rel == ".git" || strings.HasPrefix(filepath.Base(p), ".") && rel != "." || rel == "zvsync" || rel == "zvlru" || rel == "zvatomic" {
 				return filepath.SkipDir
 			}
 			return nil
@@ -86,6 +87,7 @@ func main() {
 		}
 	}
 	replace[filepath.Join(repo, "zvlru", "lru.go")] = filepath.Join(self, "engine", "zvlru", "lru.go")
+	replace[filepath.Join(repo, "zvatomic", "atomic.go")] = filepath.Join(self, "engine", "zvatomic", "atomic.go")
 	b, _ := json.MarshalIndent(map[string]interface{}{"Replace": replace}, "", " ")
 	if err := os.WriteFile(filepath.Join(out, "overlay.json"), b, 0o644); err != nil {
 		panic(err)
@@ -122,6 +124,14 @@ func rewrite(name string, src []byte) ([]byte, bool, error) {
 			}
 			semName = local
 			im.Path.Value = strconv.Quote(shimPath)
+			im.Name = ast.NewIdent(local)
+			changed = true
+		case "sync/atomic":
+			// the atomics shim: the real operations with scheduling points (engine/zvatomic)
+			if local == "" {
+				local = "atomic"
+			}
+			im.Path.Value = strconv.Quote(atomicShimPath)
 			im.Name = ast.NewIdent(local)
 			changed = true
 		case "github.com/hashicorp/golang-lru":
